@@ -158,7 +158,12 @@ pub fn run(ctx: &Ctx, rep: &mut Report) {
                                         rep.violation("partition", "split_into", &format!("split_into({}) of morpheme {}: {}", scen::mode_name(sm), idx, msg), "", scenario());
                                     }
                                 }
-                                Ok(Ok((false, _))) => {}
+                                Ok(Ok((false, sobs))) => {
+                                    // "nothing was split": the output list (cleared before the call) stays empty
+                                    if !sobs.is_empty() {
+                                        rep.violation("partition", "split_into", &format!("split_into({}) of morpheme {} reports that nothing was split but puts {} morphemes into the output list", scen::mode_name(sm), idx, sobs.len()), "", scenario());
+                                    }
+                                }
                                 Ok(Err(_)) => rep.count("split_errors", 1),
                                 // the generated dictionaries never declare units longer than the key (that is known finding
                                 // D9), so a panic while splitting or reading the split result breaks the surface clause
